@@ -282,7 +282,7 @@ func ruleStartupGate(c *Ctx) {
 	allowed := map[string]bool{"output": true, "ping": true, "echo": true, "auth": true}
 	var bypass []string
 	okb := false
-	for _, ss := range stringSwitches(hic, func(e astExpr) bool { return isCommandCall(hic.Info(), e) }) {
+	for _, ss := range stringSwitches(hic, func(e astExpr) bool { return c.isCommandTag(hic, e) }) {
 		if ss.Stmt == ct.LT.Stmt {
 			continue
 		}
